@@ -28,6 +28,14 @@ Theorem filter_keeps_exactly_valid : forall ps c,
 Proof. intros ps c. split; [apply filter_is_spec | intros p; apply filter_keeps_exactly_valid_lemma]. Qed.
 Print Assumptions filter_keeps_exactly_valid.
 
+(* the filter does not modify its input: after any history of calls on one list, every call still
+   returns the filter of the ORIGINAL list for its own capability tuple *)
+Theorem filter_does_not_modify_input : forall ps c1 c2,
+  snd (filter_call ps c1) = ps
+  /\ fst (filter_call (snd (filter_call ps c1)) c2) = filter (fun p => satisfies (p_req p) c2) ps.
+Proof. intros ps c1 c2. split; [reflexivity | apply filter_is_spec]. Qed.
+Print Assumptions filter_does_not_modify_input.
+
 (* ... so a configuration made of filtered lists never fails requirement validation, and validation
    succeeds exactly for configurations all of whose plugins are satisfied *)
 Theorem filtered_config_validates : forall fs sa det c,
